@@ -260,6 +260,14 @@ func longestPrefix(s1, s2 string) int {
 	endIndex := -10
 	state := endByte
 	for i := 0; i < l; i++ {
+		if s1[i] != s2[i] { // 状态只由双方相同的前缀决定，否则 {uid} 和 {u} 会从大括号中间被分开。
+			if state != endByte || // 不从命名参数中间分隔
+				endIndex+1 == i { // 命名参数之后必须要有一个或以上的普通字符
+				return startIndex
+			}
+			return i
+		}
+
 		switch s1[i] {
 		case startByte:
 			startIndex = i
@@ -267,14 +275,6 @@ func longestPrefix(s1, s2 string) int {
 		case endByte:
 			state = endByte
 			endIndex = i
-		}
-
-		if s1[i] != s2[i] {
-			if state != endByte || // 不从命名参数中间分隔
-				endIndex+1 == i { // 命名参数之后必须要有一个或以上的普通字符
-				return startIndex
-			}
-			return i
 		}
 	} // end for
 
